@@ -126,6 +126,10 @@ def oracle(scn, trace):
                         out.append(V("R5", "wrong sleeper used (call-level must override policy-level; default only when none)", {"call": cid, "attempt": a.k, "used": s["which"], "expected": w_sleeper, "entry": ent}))
                 if inf.before and inf.sleeps and inf.before[0]["seq"] > inf.sleeps[0]["seq"]:
                     out.append(V("R2", "before_sleep ran after the sleep", {"call": cid, "attempt": a.k, "entry": ent}))
+                ends = [e for e in inf.post if e["ev"] == "BEFORE_SLEEP_END"]
+                if ends and inf.sleeps and ends[0]["seq"] > inf.sleeps[0]["seq"]:
+                    # "before_sleep and THEN ... the sleeper": an awaited hook must have finished before the sleeper is called
+                    out.append(V("R2", "sleeper called while the awaited before_sleep hook was still in flight", {"call": cid, "attempt": a.k, "entry": ent}))
                 if inf.handlers and inf.sleeps and inf.handlers[0]["seq"] > inf.sleeps[0]["seq"]:
                     out.append(V("R2", "handler consulted after the sleep", {"call": cid, "attempt": a.k, "entry": ent}))
                 if inf.nxt is None and not inf.deadline_after_sleep and inf.sleeps and inf.sleep_ends:
